@@ -301,6 +301,37 @@ def replay_one(ctx, s, sid, e, order, dom_order, zs, shift, scale, total, spread
             if not np.all(np.isfinite(got)) or not np.allclose(got, want, rtol=1e-9, atol=1e-12 * total):
                 bad.append("marginal on %s = %s, brute force %s" % (cl, got.tolist(), want.tolist()))
                 break
+        if hash(key) % 3 == 0:
+            # the same object after an earlier life with other parameters: clique marginals asked through project() (variable
+            # elimination, nothing cached) must be those of the CURRENT potentials and total
+            try:
+                s_old = dict(s, pots=[dict(p_, w=list(reversed(p_["w"]))) for p_ in s["pots"]])
+                m.potentials, m.total = potentials(m, s_old, set(), [0.0] * len(s["pots"])), total * 2.0 + 1.0
+                with np.errstate(all="ignore"):
+                    for b in e["beliefs"]:
+                        m.project(tuple(b["at"]))
+                    m.potentials, m.total = pot, total
+                    for b in e["beliefs"]:
+                        got = np.asarray(m.project(tuple(b["at"])).values, dtype=float).reshape(-1)
+                        want = np.array(b["w"], dtype=float) * total / Z
+                        if got.shape != want.shape or not np.allclose(got, want, rtol=1e-9, atol=1e-12 * total):
+                            bad.append("after re-parameterising the same object, project(%s) = %s, brute force %s" % (tuple(b["at"]), got.tolist(), want.tolist()))
+                            break
+                    # the bulk path (conditionals by division) on the same object with a very small total
+                    if not bad and len(e["beliefs"]) >= 2:
+                        m.total = 2e-9
+                        many = m.calculate_many_marginals([tuple(b["at"]) for b in e["beliefs"]])
+                        for b in e["beliefs"]:
+                            got = np.asarray(many[tuple(b["at"])].values, dtype=float).reshape(-1)
+                            want = np.array(b["w"], dtype=float) * 2e-9 / Z
+                            if got.shape != want.shape or not np.allclose(got, want, rtol=1e-9, atol=1e-24):
+                                bad.append("calculate_many_marginals at total 2e-9: %s = %s, brute force %s" % (tuple(b["at"]), got.tolist(), want.tolist()))
+                                break
+                        m.total = total
+                        if hasattr(m, "marginals"):
+                            del m.marginals
+            except Exception as ex:
+                bad.append("project on a re-parameterised object raised %r" % ex)
         want_logZ = math.log(Z) + sum(shifts)
         if not (np.isfinite(logZ) and abs(logZ - want_logZ) <= 1e-9 * max(1.0, abs(want_logZ))):
             bad.append("logZ = %r, expected %r" % (logZ, want_logZ))
